@@ -10,6 +10,8 @@ import (
 	"sync/atomic"
 	"unsafe"
 
+	"github.com/kercylan98/minotaur/toolkit/buffer"
+	"github.com/kercylan98/minotaur/toolkit/channels"
 	"github.com/kercylan98/minotaur/toolkit/queues"
 	"verifharness/internal/proto"
 )
@@ -17,7 +19,8 @@ import (
 // lfq-seq / mpsc-seq: queues.LFQueue and queues.MPSC driven from one goroutine against the
 // interleaving models run one call at a time (model) and the list queue (spec).
 //
-// lfq-conc / mpsc-conc: P producers x K values (+ C consumers) on the real, un-instrumented queue;
+// lfq-conc / mpsc-conc / unbounded-conc / unbounded-backlog-conc: P producers x K values (+ C consumers) on
+// the real, un-instrumented queue (for the two backlog buffers: Put by the producers, Get()+Load() by the consumers);
 // the recorded per-consumer pop sequences are judged by MV.Spec.ConcQueue.judge.
 
 type cqueue interface {
@@ -45,6 +48,23 @@ func (m mpsc) pop() (int, bool) {
 		return 0, false
 	}
 	return v.(int), true
+}
+
+// ubq: buffer.Unbounded used the documented way (receive on Get(), then Load()) by concurrent goroutines
+type ubq struct{ b ubuf }
+
+func (u ubq) push(v int) { u.b.Put(v) }
+func (u ubq) pop() (int, bool) {
+	select {
+	case v, ok := <-u.b.Get():
+		if !ok {
+			return 0, false
+		}
+		u.b.Load()
+		return v, true
+	default:
+		return 0, false
+	}
 }
 
 type qseqRunner struct {
@@ -276,15 +296,15 @@ func (r *qconcRunner) Step(t []string) string {
 
 func qconcGen(single bool) func(rng *proto.RNG, tier string, shard, nshards int, w *bufio.Writer) {
 	return func(rng *proto.RNG, tier string, shard, nshards int, w *bufio.Writer) {
-		nCases, reps := 48, 4
+		nCases, reps := 160, 4
 		if tier == "thorough" {
-			nCases, reps = 400, 6
+			nCases, reps = 1600, 6
 		}
 		for caseNo := 0; caseNo < nCases; caseNo++ {
 			var lines []string
 			for i := 0; i < reps; i++ {
 				P := rng.Range(1, 4)
-				K := []int{1, 2, 3, 10, 50, 200}[rng.Intn(6)]
+				K := []int{1, 2, 3, 10, 50, 200, 1000}[rng.Intn(7)]
 				C := rng.Range(0, 3)
 				if single && C > 1 {
 					C = 1
@@ -310,5 +330,11 @@ func init() {
 	proto.Register(&proto.Suite{Name: "lfq-seq", Gen: qseqGen(false), New: func() proto.Runner { r := &qseqRunner{mk: mkL}; r.Reset(); return r }})
 	proto.Register(&proto.Suite{Name: "mpsc-seq", Gen: qseqGen(true), New: func() proto.Runner { r := &qseqRunner{mk: mkM}; r.Reset(); return r }})
 	proto.Register(&proto.Suite{Name: "lfq-conc", Gen: qconcGen(false), New: func() proto.Runner { return &qconcRunner{mk: mkL} }})
+	proto.Register(&proto.Suite{Name: "unbounded-conc", Gen: qconcGen(false), New: func() proto.Runner {
+		return &qconcRunner{mk: func() cqueue { return ubq{buffer.NewUnbounded[int]()} }}
+	}})
+	proto.Register(&proto.Suite{Name: "unbounded-backlog-conc", Gen: qconcGen(false), New: func() proto.Runner {
+		return &qconcRunner{mk: func() cqueue { return ubq{channels.NewUnboundedBacklog[int]()} }}
+	}})
 	proto.Register(&proto.Suite{Name: "mpsc-conc", Gen: qconcGen(true), New: func() proto.Runner { return &qconcRunner{mk: mkM, single: true} }})
 }
